@@ -107,6 +107,11 @@ class TemplateWriter(IWriter):
                 # The root module is itself named "index": <full module name>.html already is index.html,
                 # a symlink would point to itself and the page could not be written.
                 return
+            if root_module_path.name in [pclass.filename for pclass in 
+                    itertools.chain(summary.summaryPages(system), search.searchpages)]:
+                # The root module is named like a summary page (classIndex, nameIndex, ...): 
+                # the alias would replace the summary page that has just been written.
+                return
             try:
                 root_module_path.unlink()
                 # not using missing_ok=True because that was only added in Python 3.8 and we still support Python 3.6
